@@ -177,6 +177,38 @@ pub mod iter {
         fn for_each<F: Fn(Self::Item) + Sync + Send>(self, f: F) {
             run_pass(self.into_items(), &|x| f(x));
         }
+        // the *_with / *_init family: rayon hands every split its own clone of the initial value (any number
+        // of clones is within its contract); here every task gets a fresh clone
+        fn for_each_with<T: Send + Clone, F: Fn(&mut T, Self::Item) + Sync + Send>(self, init: T, f: F) {
+            let m = std::sync::Mutex::new(init);
+            run_pass(self.into_items(), &|x| {
+                let mut t = m.lock().unwrap().clone();
+                f(&mut t, x)
+            });
+        }
+        fn map_with<T: Send + Clone, O: Send, F: Fn(&mut T, Self::Item) -> O + Sync + Send>(self, init: T, f: F) -> ParIter<O> {
+            let m = std::sync::Mutex::new(init);
+            ParIter {
+                items: run_pass(self.into_items(), &|x| {
+                    let mut t = m.lock().unwrap().clone();
+                    f(&mut t, x)
+                }),
+            }
+        }
+        fn for_each_init<T, I: Fn() -> T + Sync + Send, F: Fn(&mut T, Self::Item) + Sync + Send>(self, init: I, f: F) {
+            run_pass(self.into_items(), &|x| {
+                let mut t = init();
+                f(&mut t, x)
+            });
+        }
+        fn map_init<T, O: Send, I: Fn() -> T + Sync + Send, F: Fn(&mut T, Self::Item) -> O + Sync + Send>(self, init: I, f: F) -> ParIter<O> {
+            ParIter {
+                items: run_pass(self.into_items(), &|x| {
+                    let mut t = init();
+                    f(&mut t, x)
+                }),
+            }
+        }
         fn try_for_each<E: Send, F: Fn(Self::Item) -> Result<(), E> + Sync + Send>(self, f: F) -> Result<(), E> {
             for r in run_pass(self.into_items(), &f) {
                 r?;
